@@ -16,7 +16,10 @@ from .termadt import TermMixin
 from . import axioms
 
 
-class Executor(ExprMixin, StmtMixin, CallMixin, StrMixin, TermMixin):
+from .numeric import NumMixin
+
+
+class Executor(NumMixin, ExprMixin, StmtMixin, CallMixin, StrMixin, TermMixin):
     def __init__(self, spec, ctx):
         self.spec = spec
         self.ctx = ctx
@@ -221,10 +224,52 @@ class FnResult(object):
         self.vacuous = []
 
 
+def locate_table_entry(mi, table, key):
+    """A lambda stored in a module-level dict literal `table = {key: lambda ...}` (the last duplicate key
+    wins, as in Python), wrapped as a function definition.  Non-lambda values are returned as-is."""
+    node = mi.assigns.get(table)
+    if not isinstance(node, ast.Dict):
+        raise StaleContract("table %s is not a dict literal" % table)
+    found = None
+    for k, v in zip(node.keys, node.values):
+        try:
+            kv = ast.literal_eval(k)
+        except Exception:
+            continue
+        if kv == key:
+            found = v
+    # later module-level statements `table[key] = value`
+    for st in mi.tree.body:
+        if isinstance(st, ast.Assign) and len(st.targets) == 1 and isinstance(st.targets[0], ast.Subscript) \
+                and isinstance(st.targets[0].value, ast.Name) and st.targets[0].value.id == table:
+            try:
+                if ast.literal_eval(st.targets[0].slice) == key:
+                    found = st.value
+            except Exception:
+                pass
+    if found is None:
+        raise StaleContract("no entry %r in %s" % (key, table))
+    return found
+
+
+def lambda_as_function(lam, name):
+    f = ast.FunctionDef(name=name, args=lam.args, body=[ast.Return(value=lam.body)], decorator_list=[],
+                        returns=None, type_comment=None)
+    ast.copy_location(f, lam)
+    ast.copy_location(f.body[0], lam)
+    ast.fix_missing_locations(f)
+    return f
+
+
 def locate(spec_fn):
     mi = extract.load_module(spec_fn.module)
     if mi is None:
         raise StaleContract("module %s not found" % spec_fn.module)
+    if getattr(spec_fn, "table", None):
+        v = locate_table_entry(mi, spec_fn.table[0], spec_fn.table[1])
+        if not isinstance(v, ast.Lambda):
+            raise StaleContract("table entry %r is not a lambda (%s)" % (spec_fn.table[1], ast.unparse(v)))
+        return mi, lambda_as_function(v, spec_fn.fname)
     if spec_fn.clsname:
         r = extract.find_class(spec_fn.module, spec_fn.clsname)
         if r is None:
@@ -411,6 +456,9 @@ def run_path(ex, ctx, spec, fs, lemma, fdef, modname, clsname, fname, res):
         ret = fr.yielded
     if fs.returns and fs.returns != "None":
         rt = ex.ty(fs.returns)
+        if fs.strict_return and ret.ty != rt:
+            ctx.oblige(z3.BoolVal(False), "%s/return-type(expected %s, got %s)" % (fs.path, rt, ret.ty), "post", 0)
+            return
         try:
             ret = coerce(ret, rt)
         except Unsupported:
